@@ -55,10 +55,20 @@ type lockRule struct {
 	res    *lockResult
 	root   string
 	scope  func(fn *ssa.Function) bool
+	// fields whose loads may be correlated between branches (immutable after
+	// publication per C03.R2): `if h.sequential { lock } … if h.sequential { unlock }`
+	predFields []string
 }
 
 func (r *lockRule) Inline(fn *ssa.Function) bool { return r.scope == nil || r.scope(fn) }
-func (r *lockRule) PredOK(key string) bool        { return false }
+func (r *lockRule) PredOK(key string) bool {
+	for _, f := range r.predFields {
+		if mentionsField(key, f) {
+			return true
+		}
+	}
+	return false
+}
 
 func heldSet(sigma string) []string {
 	if sigma == "" {
@@ -268,7 +278,9 @@ func (r *lockRule) OnInstr(e *Engine, st *State, fc *FrameCtx, in ssa.Instructio
 					continue
 				}
 				if parts[2] == l {
-					r.misc(e, st, in.Pos(), r.root+"/reacquire/"+cls, "lock %s acquired while this path already holds it (self-deadlock)", cls)
+					r.misc(e, st, in.Pos(), r.root+"/reacquire/"+cls, "lock %s acquired while this path already holds it (self-deadlock, or a lock leaked by an earlier iteration / panic path)", cls)
+					st.Kill()
+					return false
 				}
 				edge := parts[1] + " -> " + cls
 				if _, seen := r.res.Edges[edge]; !seen {
@@ -402,6 +414,10 @@ func runLocks(p *Prog, guards []guardSpec, pkgs map[string]bool) *lockResult {
 // runLocksOpt: with resolve, an interface invoke on an in-repo interface is followed
 // into every in-scope method implementing it (each as an alternative continuation).
 func runLocksOpt(p *Prog, guards []guardSpec, pkgs map[string]bool, resolve bool) *lockResult {
+	return runLocksFull(p, guards, pkgs, resolve, nil)
+}
+
+func runLocksFull(p *Prog, guards []guardSpec, pkgs map[string]bool, resolve bool, immutable []string) *lockResult {
 	res := &lockResult{Accesses: map[string]*lockAccess{}, Callbacks: map[string]*lockCallback{}, Edges: map[string]string{}}
 	lr := &lockRule{p: p, guards: map[string]string{}, res: res}
 	for _, g := range guards {
@@ -410,6 +426,10 @@ func runLocksOpt(p *Prog, guards []guardSpec, pkgs map[string]bool, resolve bool
 	lr.scope = func(fn *ssa.Function) bool { return pkgs[PkgOf(fn)] || p.Mods[PkgOf(fn)] }
 	e := NewEngine(p)
 	e.Budget = 1500000
+	for _, tf := range immutable {
+		e.Immutable[tf] = true
+		lr.predFields = append(lr.predFields, tf[strings.Index(tf, ".")+1:])
+	}
 	var roots []*ssa.Function
 	for _, f := range p.Funcs() {
 		if !pkgs[PkgOf(f)] || f.Parent() != nil || len(f.Blocks) == 0 {
